@@ -171,6 +171,62 @@ EvBuild(e) ==
      \cup Fail("id_kept", (r.id # "") => (m.id = r.id /\ ~m.gen))
      \cup Fail("gen_flag", (r.id = "" /\ r.c # "Not") => m.gen)
 
+(* ---- C16: JSON round trip ------------------------------------------------------------ *)
+ExplicitIds(n) == { x.id : x \in { x \in Comps(n) : ~x.gen } }
+RECURSIVE JNodes(_)
+JNodes(j) == {j} \cup UNION { JNodes(j.kids[i]) : i \in DOMAIN j.kids }
+JIds(j) == { x.id : x \in { x \in JNodes(j) : ~x.leaf /\ x.id # "" } }
+LeafDefs(n) == { <<x.id, x.lo, x.hi>> : x \in Atoms(n) }
+\* ids the user gave explicitly (from the recipe): generated ids are not compared by name
+RECURSIVE RExplicit(_)
+RExplicit(r) == IF IsLeafR(r) THEN {} ELSE (IF r.id = "" THEN {} ELSE {r.id}) \cup UNION { RExplicit(r.a[i]) : i \in DOMAIN r.a }
+\* defaults / priorities attached to nodes
+Tags(n, named) == { << (IF x.id \in named THEN x.id ELSE ""), x.dflt, x.prio >> : x \in { x \in Comps(n) : x.dflt # <<>> \/ x.prio # -1 } }
+ColLo(cols) == [ i \in ColIds(cols) |-> cols[CHOOSE j \in DOMAIN cols : cols[j].id = i].lo ]
+ColHi(cols) == [ i \in ColIds(cols) |-> cols[CHOOSE j \in DOMAIN cols : cols[j].id = i].hi ]
+PolySol(p) == { x \in RangeProduct(ColIds(p.cols), ColLo(p.cols), ColHi(p.cols)) : MSat(p.rows, p.cols, x) }
+Bag(f, K) == [ v \in { f[k] : k \in K } |-> Cardinality({ k \in K : f[k] = v }) ]
+\* two configurators' default priorities and polyhedra agree up to the naming of generated ids
+CfgSame(o, b, named) ==
+  LET dpo == PairsFn(o.dp)  dpb == PairsFn(b.dp)
+      po == o.poly  pb == b.poly
+      nco == ColIds(po.cols) \cap named
+      ncb == ColIds(pb.cols) \cap named
+  IN Fail("dp_same", /\ \A k \in DOMAIN dpo \cap named : k \in DOMAIN dpb /\ dpb[k] = dpo[k]
+                     /\ DOMAIN dpo \cap named = DOMAIN dpb \cap named
+                     /\ Bag(dpo, DOMAIN dpo) = Bag(dpb, DOMAIN dpb))
+     \cup Fail("poly_same", /\ nco = ncb /\ Len(po.cols) = Len(pb.cols) /\ Len(po.rows) = Len(pb.rows)
+                             /\ Len(po.dpv) = Len(po.cols) /\ Len(pb.dpv) = Len(pb.cols)
+                             /\ \A i \in nco : \E j \in DOMAIN po.cols : \E k \in DOMAIN pb.cols :
+                                   po.cols[j].id = i /\ pb.cols[k].id = i /\ po.cols[j].lo = pb.cols[k].lo
+                                   /\ po.cols[j].hi = pb.cols[k].hi /\ po.dpv[j] = pb.dpv[k]
+                             /\ Bag(po.dpv, DOMAIN po.dpv) = Bag(pb.dpv, DOMAIN pb.dpv)
+                             /\ (o.enum /\ b.enum) => { Restr(x, nco) : x \in PolySol(po) } = { Restr(x, ncb) : x \in PolySol(pb) })
+EvJson(e) ==
+  LET m == e.model
+      b == e.back
+      named == RExplicit(e.recipe) \cup LeafIds(m)
+  IN IF ~(~IsAtom(m) /\ WellDefined(m) /\ NoPrefixed(m) /\ NoByRef(m)) THEN {"outside_domain"}
+     ELSE IF IsAtom(b) THEN {"back_is_model"}
+     ELSE Fail("leaves_same", LeafDefs(b) = LeafDefs(m))
+          \cup Fail("points_complete", PointsComplete(m, e.points))
+          \cup Fail("equiv", \A i \in DOMAIN e.points : e.points[i].ev_orig = e.points[i].ev_back)
+          \cup Fail("equiv_struct", LeafDefs(b) = LeafDefs(m) => \A a \in Box(m) : Pt(b, a) = Pt(m, a))
+          \cup Fail("ids_explicit", RExplicit(e.recipe) \subseteq JIds(e.jdoc) /\ RExplicit(e.recipe) \subseteq ExplicitIds(b))
+          \cup Fail("ids_generated_absent", JIds(e.jdoc) \subseteq RExplicit(e.recipe))
+          \cup (IF e.is_cfg THEN Fail("defaults_same", Tags(b, named) = Tags(m, named)) \cup CfgSame(e.cfg_orig, e.cfg_back, named)
+                ELSE {})
+
+(* ---- C17: base64 round trip (abstract values; the byte format is not modelled) -------- *)
+EvB64(e) ==
+  Fail("struct_same", e.back = e.model /\ e.again = e.model)
+  \cup Fail("text_same", e.shorts_after = e.shorts_before)
+  \cup Fail("queries_same", e.q_after = e.q_before)
+EvB64Poly(e) ==
+  Fail("poly_struct_same", e.p_after = e.p_before)
+  \cup Fail("poly_again_same", e.p_again = e.p_before)
+  \cup Fail("select_same", e.sel_after = e.sel_before)
+
 (* ---- purity of the call on the object it was made on (C09, on every event that logs it) *)
 EvPure(e) == IF "after" \in DOMAIN e THEN Fail("store_unchanged", e.after = e.model) ELSE {}
 
@@ -185,6 +241,9 @@ Verdict(e) ==
      [] e.op = "reduce"    -> EvReduce(e)
      [] e.op = "errors"    -> EvErrors(e)
      [] e.op = "build"     -> EvBuild(e)
+     [] e.op = "json"      -> EvJson(e)
+     [] e.op = "b64"       -> EvB64(e)
+     [] e.op = "b64poly"   -> EvB64Poly(e)
      [] e.op = "exc"       -> {"no_exception"}
      [] OTHER              -> PolyVerdict(e) \cup PrioVerdict(e))
   \cup EvPure(e)
